@@ -184,7 +184,8 @@ func NewAgent(ctx context.Context, config *AgentConfig) (_ *Agent, err error) {
 	}
 
 	graph := compose.NewGraph[[]*schema.Message, *schema.Message](compose.WithGenLocalState(func(ctx context.Context) *state {
-		return &state{Messages: make([]*schema.Message, 0, config.MaxStep+1)}
+		// the step limit is a counter, not a size: it may be as large as the caller likes
+		return &state{Messages: make([]*schema.Message, 0)}
 	}))
 
 	modelPreHandle := func(ctx context.Context, input []*schema.Message, state *state) ([]*schema.Message, error) {
